@@ -2307,3 +2307,16 @@ impl<T: AsRef<str>> AsRef<[u8]> for AsBytes<T> {
         self.0.as_ref().as_bytes()
     }
 }
+
+/// Verification hook (`--cfg hipstr_verif`).
+#[cfg(hipstr_verif)]
+impl<'borrow, B> HipStr<'borrow, B>
+where
+    B: Backend,
+{
+    /// Returns the underlying byte string.
+    #[must_use]
+    pub const fn verif_bytes(&self) -> &HipByt<'borrow, B> {
+        &self.0
+    }
+}
